@@ -535,34 +535,105 @@ fn token(rng: &mut Rng) -> String {
     gen_text(rng, TextClass::Token)
 }
 
+/// Delimiter-free free text for the space separated parts of typed directives (`##sequence-region
+/// seqid start end`, `##genome-build source name`): any UTF-8 incl. reserved characters, but no
+/// ASCII whitespace and no vertical tab — a part containing a blank is not representable in these
+/// directives (format-inherent), so it is not generated.
+fn directive_part(rng: &mut Rng) -> String {
+    let c = *rng.pick(&[TextClass::Token, TextClass::Token, TextClass::Plain, TextClass::Reserved, TextClass::Leading, TextClass::Unicode, TextClass::PercentLiteral, TextClass::Mixed]);
+    let s: String = gen_text(rng, c).chars().filter(|ch| !ch.is_ascii_whitespace() && *ch != '\u{b}').collect();
+    if s.is_empty() {
+        return if rng.bool() { "ctg123".into() } else { "chr1/alt".into() };
+    }
+    if rng.chance(1, 4) {
+        // realistic accessions with punctuation
+        return rng.pick(&["NC_000001.11", "HLA-A*01:01:01", "GL000192.1|alt", "chr1/alt", "chrUn_KI270302v1", "scaffold(12)", "a,b", "x=y;z", "100%", "#1", ">c", "été"]).to_string();
+    }
+    s
+}
+
+fn directive_position(rng: &mut Rng) -> usize {
+    match rng.below(6) {
+        0 => 1,
+        1 => *rng.pick(&[2usize, 4_294_967_295, 4_294_967_296, usize::MAX - 1, usize::MAX]),
+        _ => 1 + rng.skewed(1_000_000_000) as usize,
+    }
+}
+
+pub const DIRECTIVE_KINDS: &[&str] = &["gff-version", "sequence-region", "genome-build", "text-under-known-key", "unknown-key-with-text", "forward-references-resolved", "unknown-key-without-value", "FASTA"];
+
+fn sequence_region(name: &str, s: usize, e: usize) -> DirectiveBuf {
+    DirectiveBuf::new(directive_buf::key::SEQUENCE_REGION, Some(DValue::SequenceRegion(directive_buf::value::SequenceRegion::new(name, Position::try_from(s).unwrap(), Position::try_from(e).unwrap()))))
+}
+
+/// Fixed directives that are part of every run (interleaved with the corpus records).
+pub fn directive_corpus() -> Vec<(usize, DirectiveBuf)> {
+    use directive_buf::key;
+    let mut v: Vec<(usize, DirectiveBuf)> = Vec::new();
+    for t in ["3", "3.1", "3.1.26"] {
+        v.push((0, DirectiveBuf::new(key::GFF_VERSION, Some(DValue::GffVersion(t.parse().unwrap())))));
+    }
+    for (name, s, e) in [
+        ("ctg123", 1, 1497228),
+        ("chr1/alt", 1, usize::MAX),
+        ("NC_000001.11", 4_294_967_296, usize::MAX),
+        ("HLA-A*01:01:01", 1, 1),
+        ("#x", 2, 3),
+        ("(a,b)", 1, 10),
+        ("50%", 1, 10),
+        ("%41", 1, 10),
+        ("a=b;c&d", 1, 10),
+        (">c", 1, 10),
+        ("été測", 1, 10),
+    ] {
+        v.push((1, sequence_region(name, s, e)));
+    }
+    v.push((2, DirectiveBuf::new(key::GENOME_BUILD, Some(DValue::GenomeBuild(directive_buf::value::GenomeBuild::new("NCBI", "B36"))))));
+    v.push((2, DirectiveBuf::new(key::GENOME_BUILD, Some(DValue::GenomeBuild(directive_buf::value::GenomeBuild::new("src/1;é", "name%2,=x"))))));
+    v.push((3, DirectiveBuf::new(key::SPECIES, Some(DValue::String("https://www.ncbi.nlm.nih.gov/Taxonomy/Browser/wwwtax.cgi?id=6239".into())))));
+    v.push((3, DirectiveBuf::new(key::SEQUENCE_REGION, Some(DValue::String("ctg123 1 1497228".into())))));
+    v.push((4, DirectiveBuf::new("foo-bar", Some(DValue::String("free text; with = & , % %41 and é  two blanks ".into())))));
+    v.push((4, DirectiveBuf::new("x", Some(DValue::String("".into())))));
+    v.push((5, DirectiveBuf::new(key::FORWARD_REFERENCES_ARE_RESOLVED, None)));
+    v.push((6, DirectiveBuf::new("end-of-part", None)));
+    v.push((7, DirectiveBuf::new(key::FASTA, None)));
+    v
+}
+
 pub fn run_directive(rng: &mut Rng, mon: &mut Mon, file: &mut Vec<FileLine>) {
     use directive_buf::key;
-    let kind = rng.below(7);
+    let kind = rng.below(8) as usize;
     let d = match kind {
         0 => {
-            let v = *rng.pick(&["3", "3.1", "3.1.26", "3.0.0", "2"]);
+            let v = *rng.pick(&["3", "3.1", "3.1.26", "3.0.0", "2", "3.0", "10.20.30"]);
             DirectiveBuf::new(key::GFF_VERSION, Some(DValue::GffVersion(v.parse().unwrap())))
         }
         1 => {
-            let s = gen_position_small(rng);
-            let e = s + rng.skewed(1_000_000) as usize;
-            DirectiveBuf::new(key::SEQUENCE_REGION, Some(DValue::SequenceRegion(directive_buf::value::SequenceRegion::new(token(rng), Position::try_from(s).unwrap(), Position::try_from(e).unwrap()))))
+            let s = directive_position(rng);
+            let e = if rng.chance(1, 5) { directive_position(rng) } else { s.saturating_add(rng.skewed(1_000_000) as usize) };
+            sequence_region(&directive_part(rng), s, e)
         }
-        2 => DirectiveBuf::new(key::GENOME_BUILD, Some(DValue::GenomeBuild(directive_buf::value::GenomeBuild::new(token(rng), token(rng))))),
-        3 => {
-            let k: &[u8] = *rng.pick(&[key::FEATURE_ONTOLOGY, key::ATTRIBUTE_ONTOLOGY, key::SOURCE_ONTOLOGY, key::SPECIES, key::GFF_VERSION, key::SEQUENCE_REGION, key::GENOME_BUILD]);
-            // a string value under any key; plain text without TAB and line terminators
-            let c = *rng.pick(&[TextClass::Token, TextClass::Plain, TextClass::Reserved, TextClass::Unicode, TextClass::PercentLiteral, TextClass::Empty]);
-            let mut v = gen_text(rng, c);
-            if v.ends_with(|ch: char| ch.is_ascii_whitespace()) || v.starts_with(|ch: char| ch == '\u{a0}') {
-                v.push('x');
-            }
+        2 => DirectiveBuf::new(key::GENOME_BUILD, Some(DValue::GenomeBuild(directive_buf::value::GenomeBuild::new(directive_part(rng), directive_part(rng))))),
+        3 | 4 => {
+            // free text (no TAB, no line terminator) under a known or an unknown key
+            let k: Vec<u8> = if kind == 3 {
+                rng.pick(&[key::FEATURE_ONTOLOGY, key::ATTRIBUTE_ONTOLOGY, key::SOURCE_ONTOLOGY, key::SPECIES, key::GFF_VERSION, key::SEQUENCE_REGION, key::GENOME_BUILD]).to_vec()
+            } else {
+                token(rng).into_bytes()
+            };
+            let c = *rng.pick(&[TextClass::Token, TextClass::Plain, TextClass::Reserved, TextClass::Leading, TextClass::Unicode, TextClass::PercentLiteral, TextClass::Empty]);
+            let v = gen_text(rng, c);
             DirectiveBuf::new(k, Some(DValue::String(v.into())))
         }
-        4 => DirectiveBuf::new(token(rng), Some(DValue::String(gen_text(rng, TextClass::Token).into()))),
         5 => DirectiveBuf::new(key::FORWARD_REFERENCES_ARE_RESOLVED, None),
-        _ => DirectiveBuf::new(token(rng), None),
+        6 => DirectiveBuf::new(token(rng), None),
+        _ => DirectiveBuf::new(key::FASTA, None),
     };
+    check_directive(d, kind, rng, mon, file);
+}
+
+pub fn check_directive(d: DirectiveBuf, kind: usize, rng: &mut Rng, mon: &mut Mon, file: &mut Vec<FileLine>) {
+    let kname = DIRECTIVE_KINDS[kind];
     mon.c("gff3.directives_generated", 1);
     let d2 = d.clone();
     let via_line = rng.bool();
@@ -577,13 +648,14 @@ pub fn run_directive(rng: &mut Rng, mon: &mut Mon, file: &mut Vec<FileLine>) {
             return;
         }
         Ok(Err(e)) => {
-            mon.c(&format!("gff3.directive_writer_rejected[kind{kind}:{}]", io_class(&e)), 1);
+            mon.c(&format!("gff3.directive_writer_rejected[{kname}:{}]", io_class(&e)), 1);
             return;
         }
         Ok(Ok(b)) => b,
     };
     mon.evals += 1;
-    mon.fps.insert(fnv1a(format!("gff3-directive|{kind}").as_bytes()));
+    mon.fps.insert(fnv1a(format!("gff3-directive|{kname}").as_bytes()));
+    mon.c(&format!("gff3.directives_accepted[{kname}]"), 1);
     if !bytes.starts_with(b"##") || bytes.last() != Some(&b'\n') || bytes[..bytes.len() - 1].iter().any(|&b| b == b'\n' || b == b'\r') {
         mon.v("gff3-directive:text-shape", format!("{d:?} written as {}", show(&bytes)));
         return;
@@ -596,6 +668,14 @@ pub fn run_directive(rng: &mut Rng, mon: &mut Mon, file: &mut Vec<FileLine>) {
         let mut r = gff::io::Reader::new(&b2[..]);
         let line = r.lines().next().ok_or("lines() yields nothing")?.map_err(|e| e.to_string())?;
         let lz = line.as_directive().ok_or("as_directive() is None")?;
+        // read_line into a caller-owned line
+        let mut r = gff::io::Reader::new(BufReader::with_capacity(2, &b2[..]));
+        let mut l2 = gff::Line::default();
+        r.read_line(&mut l2).map_err(|e| e.to_string())?;
+        let lz2 = l2.as_directive().ok_or("read_line: as_directive() is None")?;
+        if lz2.key() != lz.key() || lz2.value() != lz.value() || l2.kind() != gff::line::Kind::Directive {
+            return Err("read_line + as_directive differs from lines() + as_directive".into());
+        }
         Ok((got, lz.key().to_vec(), lz.value().map(|v| v.to_vec())))
     });
     match back {
@@ -615,7 +695,7 @@ pub fn run_directive(rng: &mut Rng, mon: &mut Mon, file: &mut Vec<FileLine>) {
             if d.key() != got.key() {
                 mon.v("gff3-directive:roundtrip:key", format!("{d:?} written as {} read back {got:?}", show(&bytes)));
             } else if !same_value {
-                mon.v(format!("gff3-directive:roundtrip:value:kind{kind}"), format!("{d:?} written as {} read back {got:?}", show(&bytes)));
+                mon.v(format!("gff3-directive:roundtrip:value:{kname}"), format!("{d:?} written as {} read back {got:?} (typed values are judged after parsing the text with the type's FromStr)", show(&bytes)));
             }
             let owned_val = match got.value() {
                 Some(DValue::String(s)) => Some(s.to_vec()),
@@ -626,13 +706,12 @@ pub fn run_directive(rng: &mut Rng, mon: &mut Mon, file: &mut Vec<FileLine>) {
                 mon.v("gff3-directive:lazy-ne-owned", format!("lazy key/value {} / {:?} vs owned {got:?}", show(&lkey), lval.as_deref().map(show)));
             }
             mon.c("gff3.directives_read_back", 1);
-            file.push(FileLine { bytes, rec: None, dir: Some((got.key().to_vec(), owned_val)) });
+            if kind != 7 {
+                // (record_bufs() ends at ##FASTA by design, so that directive stays out of the whole-file pass)
+                file.push(FileLine { bytes, rec: None, dir: Some((got.key().to_vec(), owned_val)) });
+            }
         }
     }
-}
-
-fn gen_position_small(rng: &mut Rng) -> usize {
-    1 + rng.skewed(1_000_000_000) as usize
 }
 
 /// What one API saw for one line of a whole file.
